@@ -29,6 +29,7 @@ type loopTrack struct {
 	lsEmpty       bool // the LS transaction that ended at the current yield point recorded nothing
 	txnAtRelease  int64
 	appSinceStore bool
+	forced        bool // the forced periodic snapshot was made due (loop.overdue) and not stored yet
 	coveredBySend bool // an application change happened before the dump of the send in progress
 	stores        int
 	startupStore  bool // the next store is the start-up one
